@@ -283,11 +283,13 @@ func TestC15_LeaderSwitch(t *testing.T) {
 	if err != nil {
 		t.Fatalf("HARNESS: %v", err)
 	}
+	a.keepRunning = true
 	defer a.stopAsync()
 	b, err := startNode("switch-b", t38.Opts{})
 	if err != nil {
 		t.Fatalf("HARNESS: %v", err)
 	}
+	b.keepRunning = true
 	defer b.stopAsync()
 	f, err := startNode("switch-f", t38.Opts{})
 	if err != nil {
